@@ -247,6 +247,11 @@ class Gen:
         if kind == "expr":
             return ("expr", self.expr(bound)), bound
         if kind == "return":
+            if rng.random() < 0.2:
+                # an assignment expression inside the returned expression: a binding like any other
+                w = rng.choice([x for x in VARS if x != v])
+                inner, rest = self.expr(bound), self.expr(bound, 2)
+                return ("return", "(%s := %s) + %s" % (w, inner, rest), (w, inner, rest)), bound | {w}
             return ("return", self.expr(bound) if rng.random() < 0.85 else None), bound
         if kind == "raise":
             return ("expr", "R(%d)" % self.nk()), bound
@@ -424,7 +429,15 @@ def render(fn, twin=False, subst=None, ann_params=None, decl=None):
             elif k == "expr":
                 lines.append("%s%s" % (ind, s[1]))
             elif k == "return":
-                lines.append("%sreturn%s" % (ind, " " + s[1] if s[1] is not None else ""))
+                if len(s) > 2:
+                    w, inner, rest = s[2]
+                    if subst and w == subst[0]:
+                        inner = "%s(%r, %s, LATEST)" % (subst[1], w, inner)
+                    if twin:
+                        inner = "BL(%r, %s)" % (w, inner)
+                    lines.append("%sreturn (%s := %s) + %s" % (ind, w, inner, rest))
+                else:
+                    lines.append("%sreturn%s" % (ind, " " + s[1] if s[1] is not None else ""))
             elif k in ("break", "continue", "pass"):
                 lines.append(ind + k)
             elif k == "yield":
@@ -529,6 +542,8 @@ def bound_names(fn):
                 names.extend(target_names(s[1]))
             elif k == "walrus":
                 names.extend([s[2], s[1]])
+            elif k == "return" and len(s) > 2:
+                names.append(s[2][0])
             elif k == "auglist":
                 names.extend([s[1], s[2]])
             elif k == "ann" and s[3] is not None:
